@@ -105,11 +105,45 @@ Proof.
   apply IH. apply cd_add_keys_NoDup. exact H.
 Qed.
 
+Lemma cd_add_inner_NoDup D c l id :
+  (forall c' d, In (c', d) D -> NoDup (map fst d)) ->
+  forall c' d, In (c', d) (cd_add D c l id) -> NoDup (map fst d).
+Proof.
+  induction D as [|[k d0] t IH]; intros H c' d Hin; cbn [cd_add] in Hin.
+  - destruct Hin as [Hin|[]]. inversion Hin. cbn. constructor; [intros []|constructor].
+  - destruct (k =? c) eqn:E.
+    + destruct Hin as [Hin|Hin].
+      * inversion Hin. apply ld_add_keys_NoDup. apply (H k d0). left. reflexivity.
+      * apply (H c' d). right. exact Hin.
+    + destruct Hin as [Hin|Hin].
+      * apply (H c' d). left. exact Hin.
+      * apply (IH (fun c2 d2 H2 => H c2 d2 (or_intror H2)) c' d Hin).
+Qed.
+
+Lemma build_dict_inner_NoDup P c d : In (c, d) (build_dict P) -> NoDup (map fst d).
+Proof.
+  unfold build_dict.
+  assert (H : forall c' d', In (c', d') (@nil (Z * ldict)) -> NoDup (map fst d')) by (intros ? ? []).
+  revert H. generalize (@nil (Z * ldict)). induction P as [|r t IH]; intros acc H; cbn [fold_left]; [apply H|].
+  apply IH. apply cd_add_inner_NoDup. exact H.
+Qed.
+
 (* ------------------------------------------------------ maxlen, lines *)
 Lemma maxlen_ge d l : (length (lk d l) <= maxlen d)%nat.
 Proof.
   unfold lk, zget, maxlen. induction d as [|[k ids] t IH]; cbn [dget map fold_right snd length]; [lia|].
   destruct (k =? l); [lia|]. etransitivity; [exact IH|lia].
+Qed.
+
+Lemma maxlen_attained d : d <> [] -> exists l ids, In (l, ids) d /\ length ids = maxlen d.
+Proof.
+  unfold maxlen. induction d as [|[l ids] t IH]; intros N; [contradiction|]. cbn [map fold_right snd].
+  destruct t as [|p t'].
+  - exists l, ids. split; [left; reflexivity|]. cbn. lia.
+  - destruct (IH ltac:(discriminate)) as [l' [ids' [Hin E]]].
+    destruct (Nat.le_ge_cases (length ids) (fold_right Nat.max O (map (fun p0 => length (snd p0)) (p :: t')))) as [L|L].
+    + exists l', ids'. split; [right; exact Hin|]. rewrite E. lia.
+    + exists l, ids. split; [left; reflexivity|]. lia.
 Qed.
 
 (* the lines of the array: (concept, synonym rank) in the order of _dict *)
